@@ -610,4 +610,5 @@ func generate() {
 	// after the existing streams, each from its own fork: the cases above are the same as before for a seed
 	addDirected(g.Fork())
 	liftDirected(g.Fork())
+	wideCases(g.Fork())
 }
